@@ -467,6 +467,8 @@ def write_evidence(machine, tier, seed, results, errors, wall, extra,
         'harness_errors': len(errors),
         'exhaustive': False,
     }
+    if hasattr(machine, 'summarise'):
+        cov['reach_summary'] = machine.summarise(feats)
     cov.update(extra or {})
     doc = {'property_id': machine.pid, 'tier': tier, 'seed': int(seed),
            'level': 'exploration', 'coverage': cov,
